@@ -12,7 +12,7 @@ import (
 )
 
 var (
-	producesParams = []string{"; charset=utf-8", ";version=1", ";q=0.1", "; a=\"b,c\""}
+	producesParams = []string{"; charset=utf-8", ";version=1", ";q=0.1", "; a=\"b,c\"", " ; charset=utf-8", "\t;v=2"} // the last two: white space in front of the semicolon (r10)
 	codeSets       = [][]int{{200}, {200}, {201, 200}, {204}, {204, 200}, {202, 299}, {299}, {200, 404, 500}, {404, 201}, {404}, {}, {204, 400}, {100, 300, 203}}
 	realms         = []string{"API", "my \"realm\"", "back\\slash", "both \\\" of them", "ü €", "a,b=c", "\"", "\\", "trailing\\", " spaced  out ", "realm=\"x\", Basic realm=\"y\""}
 	realmAlphabet  = []rune{'a', 'Z', '0', '"', '\\', ' ', ',', '=', ';', '%', 'ü', '€', '\''}
